@@ -270,7 +270,7 @@ def run_workflow(case):
             cls = fp + ("/not-idempotent" if again == canon[T] else "/different-psbt")
             res.violation(f"C10/{eng}/{cls}", vc, got_raw if not isinstance(got_raw, bytes) else got_raw[:60].hex() + f"..({len(got_raw)} bytes)", canon[T][:60].hex() + f"..({len(canon[T])} bytes)", f"{label}: {what} does not give the canonical PSBT of subset {sorted(T)}")
             return False
-        res.ok(f"{fp.split('/')[0]} -> canonical", nontrivial=(label, what))
+        res.ok(f"{fp.split('/')[0]} -> canonical", nontrivial=(label, what), sample={"config": label, "transition": what, "target_subset": sorted(T)})
         return True
 
     # ---- create + update == create with lookups
